@@ -484,10 +484,8 @@ func c12countClass(v uint64) string {
 		return "count<=2^20"
 	case v < 1<<32:
 		return "count<2^32"
-	case v < 1<<63:
-		return "count<2^63"
 	}
-	return "count>=2^63"
+	return "count>=2^32"
 }
 
 func c12prefixes() []c12prefix {
@@ -637,7 +635,13 @@ func c12key(fam, desc, what string) string {
 		cls = "op" + f[len(f)-1]
 	case "deserialize-blob":
 		f := strings.Fields(desc)
-		cls = f[0] + ":" + f[1] // position/type tag : class of the announced count (encoding and following bytes are in the detail)
+		// (top | nested)/type tag : class of the announced count; the enclosing container, the exact count, its
+		// encoding and the following bytes are in the detail
+		pos := strings.SplitN(f[0], "/", 2)
+		if pos[0] != "top" {
+			pos[0] = "nested"
+		}
+		cls = pos[0] + "/" + pos[1] + ":" + f[1]
 	}
 	return fmt.Sprintf("%s:%s:%s", what, fam, cls)
 }
@@ -859,6 +863,6 @@ func TestVerif_C12(t *testing.T) {
 	}
 	r.Sample(map[string]interface{}{"family": "shape-syscall", "example": "self-array-slot1 x1 System.Runtime.Serialize"})
 	r.Sample(map[string]interface{}{"family": "native", "example": "ONT.transfer with args [addr0, addr1] as struct"})
-	r.Sample(map[string]interface{}{"family": "deserialize-blob", "example": "top/struct count<2^63 canonical 0x20000000000 tail=0001: blob 81 ff 0000000000020000 00 01 -> PUSHBYTES, System.Runtime.Deserialize, DUP, Serialize, DROP, Notify"})
+	r.Sample(map[string]interface{}{"family": "deserialize-blob", "example": "top/struct count>=2^32 canonical 0x20000000000 tail=0001: blob 81 ff 0000000000020000 00 01 -> PUSHBYTES, System.Runtime.Deserialize, DUP, Serialize, DROP, Notify"})
 	var _ = ethcom.Address{}
 }
